@@ -42,6 +42,11 @@ def monitor(cfg, op, o):
                         f"but it holds {want_t} locked tokens"))
         if view != max(0, want_e):
             out.append((f"amount-view:{op[0]}", f"after {op}: getEnergyAmountForUser(user{u}) = {view}, expected max(0, {want_e})"))
+    for h, name in ((se.H_UNSTAKE, "token-unstake"), (se.H_XFER, "lkmex-transfer"), (se.H_WRAP, "locked-token-wrapper")):
+        amt, upd, tot, view = o["en"][h]
+        if amt != 0 or tot != 0 or view != 0:
+            out.append((f"escrow-energy:{name}", f"after {op}: the escrow account {name} has an energy entry "
+                        f"(amount {amt}, total {tot}, view {view}) while holding {o['tot'][h]} locked tokens"))
     return out
 
 
